@@ -272,7 +272,7 @@ func (C20) Run(c core.Case, ctx *core.Ctx) []core.Violation {
 			var L graphx.TopoOrder
 			p, class, site, detail := core.Guard(func() {
 				L = g.KahnSort()
-				if cc.Start%2 == 1 {
+				if spec.N%2 == 1 {
 					L = g.KahnSort() // sorting works on a copy: a second sort sees the same graph
 				}
 			})
@@ -314,6 +314,15 @@ func (C20) Run(c core.Case, ctx *core.Ctx) []core.Violation {
 			for i := 0; i < m.n; i++ {
 				if len(g.OutEdges(vs[i])) != outDegree(m, i) {
 					add("kahn-mutated-graph", "KahnSort", fmt.Sprintf("vertex %d lost edges after sorting", i))
+				}
+				indeg := 0
+				for j := 0; j < m.n; j++ {
+					if m.adj[j][i] >= 0 {
+						indeg++
+					}
+				}
+				if len(g.InEdges(vs[i])) != indeg {
+					add("kahn-mutated-graph", "KahnSort", fmt.Sprintf("vertex %d lost incoming edges after sorting", i))
 				}
 			}
 		case "scc":
